@@ -20,28 +20,64 @@ def _validate_graph_isolation(project: WBS):
 
 
 def _check_loops(project: WBS):
+    """
+    Checks that tasks can be ordered. Task start waits for ends of task predecessors and for everything
+    that start of task parent waits for. Task end waits for task start (leaf task) or for ends of
+    task children. So loop can be closed not only by predecessors, but through hierarchy also
+    (task waits for task, that waits for one of its parents).
+    """
     validated = set()
     for t in project.tasks:
-        _check_loops_from_task(t, set(), validated)
+        _check_loops_from_node((t, True), validated)
 
 
-def _check_loops_from_task(task: Task, visited_tasks: Set[int], validated: Set[int]):
-    if task.id in validated:
+def _loop_node_key(node):
+    return id(node[0]), node[1]
+
+
+def _loop_node_dependencies(node):
+    task, is_end = node
+    if is_end:
+        if len(task.children) == 0:
+            return [(task, False)]
+        return [(ch, True) for ch in task.children]
+
+    res = [(p, True) for p in task.predecessors]
+    if task.parent is not None:
+        res.append((task.parent, False))
+    return res
+
+
+def _check_loops_from_node(node, validated: Set):
+    if _loop_node_key(node) in validated:
         return
 
-    if task.id in visited_tasks:
-        raise RuntimeError(
-            "Found circle",
-            [str(t) + "-->" for t in visited_tasks] + [str(task.id) + ":" + task.name]
-        )
+    path = [node]
+    path_keys = {_loop_node_key(node)}
+    iterators = [iter(_loop_node_dependencies(node))]
 
-    visited_tasks.add(task.id)
+    while len(path) > 0:
+        dep = next(iterators[-1], None)
+        if dep is None:
+            done = path.pop()
+            iterators.pop()
+            path_keys.remove(_loop_node_key(done))
+            validated.add(_loop_node_key(done))
+            continue
 
-    for s in task.predecessors:
-        _check_loops_from_task(s, visited_tasks, validated)
+        key = _loop_node_key(dep)
+        if key in validated:
+            continue
 
-    visited_tasks.remove(task.id)
-    validated.add(task.id)
+        if key in path_keys:
+            raise RuntimeError(
+                "Found circle",
+                [f"{t.id}:{t.name}" for t, _ in path] + [f"{dep[0].id}:{dep[0].name}"]
+            )
+
+        path.append(dep)
+        path_keys.add(key)
+        iterators.append(iter(_loop_node_dependencies(dep)))
 
 
 @dataclass(frozen=True)
